@@ -171,3 +171,79 @@ def record(data, kind, rsize, skip, rng, max_items, label, chooser=None, via="cc
     ch = chooser or (lambda lim: rng.randint(1, lim))
     ev, items, outcome = framer_io.run_framer(data, kind, rsize, skip, chooser=ch, max_items=max_items, via=via)
     return (data, kind, rsize, skip, ev, {"label": label, "items": items, "outcome": outcome})
+
+
+OS_KINDS = ("rb", "rb-small-buffer", "r+b", "w+b-unflushed", "w+b-partly-flushed", "tmpfile-unflushed", "buffered-reader", "gzip", "bz2", "lzma")
+
+
+def _open_os_source(kind, data, cut, td):
+    """A real file object of the given kind holding `data` (cut: a byte offset at which a writer flushed, for the partly flushed kind)."""
+    import bz2
+    import gzip
+    import io
+    import lzma
+    import tempfile
+    path = os.path.join(td, "stream.bin")
+    if kind in ("rb", "rb-small-buffer", "r+b"):
+        with open(path, "wb") as f:
+            f.write(data)
+        return open(path, "rb") if kind == "rb" else open(path, "rb", buffering=16) if kind == "rb-small-buffer" else open(path, "r+b")
+    if kind == "w+b-unflushed":
+        f = open(path, "w+b", buffering=1 << 20)
+        f.write(data)
+        return f
+    if kind == "w+b-partly-flushed":
+        f = open(path, "w+b", buffering=1 << 20)
+        f.write(data[:cut])
+        f.flush()
+        f.write(data[cut:])
+        return f
+    if kind == "tmpfile-unflushed":
+        f = tempfile.TemporaryFile(dir=td)
+        f.write(data)
+        return f
+    if kind == "buffered-reader":
+        return io.BufferedReader(io.BytesIO(data), buffer_size=8)
+    mod = {"gzip": gzip, "bz2": bz2, "lzma": lzma}[kind]
+    with mod.open(path + "." + kind, "wb") as f:
+        f.write(data)
+    return mod.open(path + "." + kind, "rb")
+
+
+def os_sources_section(ctx, pid, cases, via="ccsds"):
+    """Real file objects of every flavour the standard library hands out (read-only, read/write with pending writes, temporary,
+    buffered wrappers, compressed) must frame a stream exactly like the in-memory file whose run the specification has validated.
+    cases: (data, rsize, skip, flush offset). Differential against the model-validated BytesIO run: items, order, outcome."""
+    import tempfile
+    from harness import framer_io
+    from space_packet_parser import packets
+    n = 0
+    for data, rsize, skip, cut in cases:
+        _, base_items, base_outcome = framer_io.run_framer(data, "file", rsize, skip, max_items=400, via=via)
+        want = [bytes(x) for x in base_items]
+        for kind in OS_KINDS:
+            with tempfile.TemporaryDirectory(prefix="spp-os-", dir=ctx.work) as td:
+                src = _open_os_source(kind, data, cut, td)
+                got, outcome = [], "stop"
+                try:
+                    kw = dict(buffer_read_size_bytes=None if rsize == 0 else rsize, skip_header_bytes=skip)
+                    gen = packets.ccsds_generator(src, **kw) if isinstance(via, str) else via.packet_generator(src, **kw)
+                    for p in gen:
+                        got.append(bytes(p) if isinstance(p, bytes) else bytes(p.raw_data))
+                        if len(got) > 400:
+                            outcome = "abort"
+                            gen.close()
+                            break
+                except Exception as e:  # noqa: BLE001
+                    outcome = "raise:" + type(e).__name__
+                finally:
+                    src.close()
+            n += 1
+            ctx.traces += 1
+            ctx.count(("os-source", kind, data[:64], len(data), rsize, skip, cut))
+            if got != want or outcome != base_outcome:
+                firstdiff = next((i for i, (a, b) in enumerate(zip(got, want)) if a != b), min(len(got), len(want)))
+                ctx.violation(f"{pid}/os-source/{kind}", f"{kind} file object ({len(data)} bytes, read size {rsize}, prefix {skip}, flushed at {cut}): "
+                              f"{len(got)} items, outcome {outcome}; the in-memory file gives {len(want)} items, outcome {base_outcome}; first difference at item {firstdiff}",
+                              {"data": list(data) if len(data) < 40000 else None, "len": len(data), "kind": kind, "rsize": rsize, "skip": skip, "cut": cut})
+    ctx.extra["os_source_runs"] = n
